@@ -6,6 +6,9 @@ package main
 // status (every chunk index in turn, and PRNG index sets), in order and with held requests
 // answered in a PRNG permutation, for every transfer API and concurrency option.
 //
+// Plans of 5-8 chunks for 1-3 workers put the failing STATUS in front of a worker that has served chunks before; the
+// start offset rotates (zero, small, beyond the length of the call's buffer).
+//
 // Direct oracles on (n, err), the bytes delivered / stored and the File offset:
 //   err != nil; first n bytes moved intact and contiguously; err is the status of the LOWEST
 //   failing offset (each failing offset gets its own message); io.EOF only at the true end of
@@ -205,6 +208,9 @@ func xfC13Check(cs xfCase, out xfOutcome, fail xfFailer) (f6 bool) {
 		}
 	}
 	// the count
+	if maxN := int64(L); out.N < 0 || (cs.API != "WriteTo" && out.N > maxN) {
+		fail("count-outside-buffer", "the count lies outside [0, len] of the call's own buffer / source", fmt.Sprintf("0..%d", maxN), got)
+	}
 	switch {
 	case isRF:
 		if out.N != out.Consumed {
@@ -343,7 +349,7 @@ func checkC13(c *lib.Ctx) {
 	r := c.R
 	res := &xfRes{r: r}
 	thorough := c.Tier == "thorough"
-	r.Rule = "scripted peer serving the file itself; for every client option set (quick: every (mp,conc) pair twice with rotating booleans; thorough: full product) x API {ReadAt, Read, WriteTo, WriteAt, Write, ReadFrom(Len/Size/Stat/LimitedReader/opaque), ReadFromWithConcurrency(0,1,3)} x chunk counts {1,2,3,conc+2,...} x tail {aligned, 1, mp-1} x read geometry {ends at EOF, file longer, crosses EOF}: fail EVERY chunk index in turn (status codes 4,3,8,5,2,7 rotating, one message per offset) and PRNG index sets of 2-4 chunks, each in order and with held requests answered in a PRNG permutation (window up to workers+1); plus a failing size query for WriteTo, a failing source for ReadFrom, short DATA replies with a failing refill request on the sequential read paths; non-trivial = more than one chunk; distinct by (options, api, sizes, failing set, window)"
+	r.Rule = "scripted peer serving the file itself; for every client option set (quick: every (mp,conc) pair twice with rotating booleans; thorough: full product) x API {ReadAt, Read, WriteTo, WriteAt, Write, ReadFrom(Len/Size/Stat/LimitedReader/opaque), ReadFromWithConcurrency(0,1,3)} x chunk counts {1,2,3,conc+2,... and one of 5..8 for 1-3 workers (thorough: 1..8): failing indices >= MaxConcurrentRequestsPerFile reach a worker that has already served a successful chunk} x start offset rotating through {0, 1, mp+1, 2mp, len+1, 3len+mp+7, 4099} (the count must lie in [0, len] of the call's own buffer) x tail {aligned, 1, mp-1} x read geometry {ends at EOF, file longer, crosses EOF}: fail EVERY chunk index in turn (status codes 4,3,8,5,2,7 rotating, one message per offset) and PRNG index sets of 2-4 chunks, each in order and with held requests answered in a PRNG permutation (window up to workers+1); plus a failing size query for WriteTo, a failing source for ReadFrom, short DATA replies with a failing refill request on the sequential read paths; non-trivial = more than one chunk; distinct by (options, api, sizes, failing set, window)"
 	model := xfProbeModel(c)
 	xfProbeDefects(&model)
 	if model.Seq {
@@ -414,6 +420,31 @@ func checkC13(c *lib.Ctx) {
 			fmt.Sprintf("opt=cr%d|cw%d|fstat%d", xfB(cs.Cfg.CR), xfB(cs.Cfg.CW), xfB(cs.Cfg.Fstat)))
 		if cs.ShortCap > 0 {
 			res.Hist("peer=short-data-replies|path=" + path)
+		}
+		if w.Fail != nil && w.FailAt >= cs.Off && path == "concurrent" {
+			idx, workers := int((w.FailAt-cs.Off)/int64(cs.Cfg.MP)), cs.EffConc()
+			nch := (cs.Len + cs.Cfg.MP - 1) / cs.Cfg.MP
+			if cs.API == "WriteTo" {
+				nch = (cs.FileLen - int(cs.Off) + cs.Cfg.MP - 1) / cs.Cfg.MP
+			}
+			b := "failing-index<workers"
+			if idx >= workers {
+				b = "failing-index>=workers(the worker has served a chunk before)"
+			}
+			res.Hist(fmt.Sprintf("worker-reuse|%s|workers=%d|chunks=%s|order=%s", b, min(workers, 4), map[bool]string{true: "5-8", false: "other"}[nch >= 5 && nch <= 8], order))
+			if idx >= workers {
+				res.Hist("worker-reuse|api=" + cs.API + "|" + b)
+			}
+		}
+		if !cs.IsRead() && len(cs.Fail) > 0 {
+			so := "0"
+			switch {
+			case cs.Off > int64(cs.Len):
+				so = "beyond-len-of-the-buffer"
+			case cs.Off > 0:
+				so = "non-zero"
+			}
+			res.Hist("failing-write|api=" + cs.API + "|start-offset=" + so)
 		}
 		fail := func(site, what string, exp, act any) {
 			k := "oracle"
@@ -499,7 +530,8 @@ func checkC13(c *lib.Ctx) {
 		case mp > 1000:
 			counts = []int{1, 3}
 		case thorough:
-			for n := 1; n <= cfg.Conc+3 && n <= 8; n++ {
+			// (up to 8 chunks also for 1-3 workers: the failing chunk then reaches a worker that has served others before)
+			for n := 1; n <= 8; n++ {
 				counts = append(counts, n)
 			}
 			if cfg.Conc == 64 {
@@ -512,6 +544,13 @@ func checkC13(c *lib.Ctx) {
 					n = 6
 				}
 				counts = append(counts, n)
+			}
+			if cfg.Conc <= 3 {
+				// a plan of 5-8 chunks for 1-3 workers: every failing index >= the number of workers is answered to a
+				// worker that has already served a successful chunk (the length rotates with job and seed)
+				if n := 5 + (job.Idx+rot)%4; n != counts[len(counts)-1] {
+					counts = append(counts, n)
+				}
 			}
 		}
 		tails := map[int]bool{0: true, 1 % mp: true, mp - 1: true}
@@ -536,7 +575,10 @@ func checkC13(c *lib.Ctx) {
 						last = mp
 					}
 					L := (nch-1)*mp + last
-					o := []int64{0, 0, 1, int64(mp) + 1, int64(2 * mp)}[rng.Intn(5)]
+					// start offsets rotate deterministically: zero, inside the first packets, beyond the length of the
+					// call's own buffer (a count computed from absolute offsets shows there), and unaligned far ones
+					startOffs := []int64{0, 1, int64(mp) + 1, 0, int64(2 * mp), int64(L) + 1, 0, int64(3*L + mp + 7), 4099}
+					o := startOffs[k%len(startOffs)]
 					base := xfCase{Srv: spec, Cfg: cfg, API: v.API, Src: v.Src, RFC: v.RFC, RW: rng.Intn(2) == 0, Off: o, Len: L, Seed: rng.Intn(251), Window: 1}
 					plan := xfPlan(mp, o, L)
 					var cand []int64 // offsets that may be failed
